@@ -129,3 +129,218 @@ proof fn lemma_fold_piece(cs: Seq<char>, ks: int, a: int, b: int)
         if j >= a { assert(cs[j] == ' '); }
     }
 }
+
+// ---- block scalars chosen and written by serialize_str (C12 / C20) ----
+//
+// Reader side, written from YAML 1.2 section 8.1 (the reader itself, saphyr-parser, is an external
+// dependency): a block scalar's header is the style character, an optional indentation indicator digit
+// that is RELATIVE to the indentation of the parent node (8.1.1.1) and an optional chomping indicator
+// (8.1.1.2); every following line at or beyond the content indentation belongs to the scalar, the
+// content indentation is removed from each line, and in literal style (8.1.2) the value is the lines
+// joined by line feeds, with the final line breaks treated per the chomping mode.
+
+spec fn trailing_lf(s: Seq<char>) -> nat
+    decreases s.len()
+{
+    if s.len() > 0 && s.last() == '\n' { 1 + trailing_lf(s.drop_last()) } else { 0 }
+}
+spec fn strip_lf(s: Seq<char>) -> Seq<char> { s.take(s.len() - trailing_lf(s)) }
+spec fn lfs(n: nat) -> Seq<char> { Seq::new(n, |i: int| '\n') }
+spec fn empties(n: nat) -> Seq<Seq<char>> { Seq::new(n, |i: int| Seq::<char>::empty()) }
+
+/// every line followed by a line feed
+spec fn join_lines(lines: Seq<Seq<char>>) -> Seq<char>
+    decreases lines.len()
+{
+    if lines.len() == 0 { Seq::empty() } else { join_lines(lines.drop_last()) + lines.last() + seq!['\n'] }
+}
+
+pub enum Chomp { Strip, Clip, Keep }
+
+/// value of a literal block scalar whose de-indented lines are `lines` (8.1.1.2: strip removes the final
+/// line breaks, keep keeps them, clip keeps one).  For content that consists of empty lines only the
+/// crate's reader keeps one line break under clip (observed: "|\n  \n" reads as "\n"); that corner is
+/// written here as the reader behaves, and pinned by the crate's own tests.
+spec fn lit_value(lines: Seq<Seq<char>>, c: Chomp) -> Seq<char> {
+    let raw = join_lines(lines);
+    match c {
+        Chomp::Strip => strip_lf(raw),
+        Chomp::Keep => raw,
+        Chomp::Clip => if strip_lf(raw).len() == 0 { if raw.len() > 0 { seq!['\n'] } else { Seq::empty() } } else { strip_lf(raw) + seq!['\n'] },
+    }
+}
+
+spec fn chomp_of(t: nat) -> Chomp { if t == 0 { Chomp::Strip } else if t == 1 { Chomp::Clip } else { Chomp::Keep } }
+spec fn chomp_text(c: Chomp) -> Seq<char> { match c { Chomp::Strip => seq!['-'], Chomp::Clip => Seq::empty(), Chomp::Keep => seq!['+'] } }
+
+/// the lines a literal block scalar must consist of to read back as `v`
+spec fn lit_lines(v: Seq<char>) -> Seq<Seq<char>> {
+    let t = trailing_lf(v);
+    let content = strip_lf(v);
+    if content.len() == 0 { empties(t) } else { split_lines(content) + empties(if t >= 2 { (t - 1) as nat } else { 0 }) }
+}
+
+/// the body text: every line preceded by the content indentation and followed by a line feed
+spec fn block_lines_text(ind: Seq<char>, lines: Seq<Seq<char>>) -> Seq<char>
+    decreases lines.len()
+{
+    if lines.len() == 0 { Seq::empty() } else { block_lines_text(ind, lines.drop_last()) + ind + lines.last() + seq!['\n'] }
+}
+
+spec fn digit_char(d: int) -> char { if 0 <= d <= 9 { ((0x30 + d) as u8) as char } else { '?' } }
+
+/// header of a block scalar: style character, indentation indicator (if any), chomping indicator (if any)
+spec fn block_header(style: char, has_ind: bool, d: int, c: Chomp) -> Seq<char> {
+    seq![style] + (if has_ind { seq![digit_char(d)] } else { Seq::empty() }) + chomp_text(c)
+}
+
+/// characters a block scalar cannot carry to this reader unchanged: a carriage return is a line break
+/// and is normalised to a line feed (5.4), NUL ends the reader's input
+#[verifier::opaque]
+spec fn block_text_ok(v: Seq<char>) -> bool { forall|i: int| 0 <= i < v.len() ==> (#[trigger] v[i]) != '\r' && v[i] != '\0' }
+
+/// line breaks the explicit folded wrapper preserves (up to the one trailing break its documented clip
+/// chomping adds or removes): none inside the text, at most two at its end
+#[verifier::opaque]
+spec fn fold_keeps_breaks(v: Seq<char>) -> bool {
+    trailing_lf(v) <= 2 && (forall|i: int| 0 <= i < strip_lf(v).len() ==> (#[trigger] strip_lf(v)[i]) != '\n')
+}
+
+proof fn lemma_trailing_lf_bound(s: Seq<char>)
+    ensures trailing_lf(s) <= s.len(), s =~= strip_lf(s) + lfs(trailing_lf(s)), trailing_lf(strip_lf(s)) == 0,
+            strip_lf(s).len() > 0 ==> strip_lf(s).last() != '\n',
+    decreases s.len(),
+{
+    if s.len() > 0 && s.last() == '\n' {
+        let p = s.drop_last();
+        lemma_trailing_lf_bound(p);
+        assert(strip_lf(s) =~= strip_lf(p));
+        assert(lfs(trailing_lf(s)) =~= lfs(trailing_lf(p)).push('\n'));
+        assert(s =~= p.push('\n'));
+    } else {
+        assert(strip_lf(s) =~= s);
+        assert(lfs(0) =~= Seq::<char>::empty());
+    }
+}
+
+proof fn lemma_trailing_lf_append(s: Seq<char>, k: nat)
+    requires trailing_lf(s) == 0,
+    ensures trailing_lf(s + lfs(k)) == k, strip_lf(s + lfs(k)) =~= s,
+    decreases k,
+{
+    if k == 0 {
+        assert(s + lfs(0) =~= s);
+        assert(strip_lf(s) =~= s);
+    } else {
+        lemma_trailing_lf_append(s, (k - 1) as nat);
+        assert((s + lfs(k)).drop_last() =~= s + lfs((k - 1) as nat));
+        assert((s + lfs(k)).last() == '\n');
+    }
+}
+
+proof fn lemma_join_split(s: Seq<char>)
+    ensures join_lines(split_lines(s)) =~= s + seq!['\n'], split_lines(s).len() >= 1,
+    decreases s.len(),
+{
+    if s.len() == 0 {
+        let one = seq![Seq::<char>::empty()];
+        assert(one.drop_last() =~= Seq::<Seq<char>>::empty());
+        assert(join_lines(one) =~= join_lines(one.drop_last()) + one.last() + seq!['\n']);
+    } else {
+        let sp = s.drop_last();
+        lemma_join_split(sp);
+        let p = split_lines(sp);
+        assert(s =~= sp.push(s.last()));
+        if s.last() == '\n' {
+            let q = p.push(Seq::<char>::empty());
+            assert(q.drop_last() =~= p);
+        } else {
+            let q = p.update(p.len() - 1, p.last().push(s.last()));
+            assert(q.drop_last() =~= p.drop_last());
+            assert(join_lines(p) =~= join_lines(p.drop_last()) + p.last() + seq!['\n']);
+            assert(join_lines(q) =~= join_lines(p.drop_last()) + p.last().push(s.last()) + seq!['\n']);
+            assert(join_lines(p.drop_last()) + p.last() =~= sp) by {
+                let a = join_lines(p.drop_last()) + p.last();
+                assert(a + seq!['\n'] =~= sp + seq!['\n']);
+                assert(a.len() == sp.len());
+                assert forall|i: int| 0 <= i < a.len() implies a[i] == sp[i] by { assert((a + seq!['\n'])[i] == (sp + seq!['\n'])[i]); }
+            }
+        }
+    }
+}
+
+proof fn lemma_join_empties(a: Seq<Seq<char>>, k: nat)
+    ensures join_lines(a + empties(k)) =~= join_lines(a) + lfs(k),
+    decreases k,
+{
+    if k == 0 {
+        assert(a + empties(0) =~= a);
+    } else {
+        lemma_join_empties(a, (k - 1) as nat);
+        let q = a + empties(k);
+        assert(q.drop_last() =~= a + empties((k - 1) as nat));
+        assert(q.last() =~= Seq::<char>::empty());
+        assert(lfs(k) =~= lfs((k - 1) as nat).push('\n'));
+    }
+}
+
+/// the link to the property: the lines `lit_lines(v)` under the chomping mode chosen from the number of
+/// trailing line feeds read back as `v`, character for character
+proof fn lemma_literal_reads_back(v: Seq<char>)
+    ensures lit_value(lit_lines(v), chomp_of(trailing_lf(v))) =~= v,
+{
+    let t = trailing_lf(v);
+    let content = strip_lf(v);
+    lemma_trailing_lf_bound(v);
+    if content.len() == 0 {
+        lemma_join_empties(Seq::<Seq<char>>::empty(), t);
+        assert(Seq::<Seq<char>>::empty() + empties(t) =~= empties(t));
+        let raw = join_lines(empties(t));
+        assert(raw =~= lfs(t));
+        assert(v =~= lfs(t));
+        lemma_trailing_lf_append(Seq::<char>::empty(), t);
+        assert(Seq::<char>::empty() + lfs(t) =~= lfs(t));
+        if t == 1 { assert(lfs(1) =~= seq!['\n']); }
+    } else {
+        let k: nat = if t >= 2 { (t - 1) as nat } else { 0 };
+        lemma_join_split(content);
+        lemma_join_empties(split_lines(content), k);
+        let raw = join_lines(lit_lines(v));
+        assert(raw =~= content + seq!['\n'] + lfs(k));
+        assert(seq!['\n'] + lfs(k) =~= lfs(k + 1)) by { assert(lfs(k + 1).len() == k + 1); }
+        assert(raw =~= content + lfs(k + 1));
+        lemma_trailing_lf_append(content, k + 1);
+        if t == 0 { assert(content + lfs(0) =~= content); }
+    }
+}
+
+proof fn lemma_blt_push(ind: Seq<char>, a: Seq<Seq<char>>, l: Seq<char>)
+    ensures block_lines_text(ind, a.push(l)) =~= block_lines_text(ind, a) + ind + l + seq!['\n'],
+{
+    assert(a.push(l).drop_last() =~= a);
+}
+
+proof fn lemma_blt_empty(ind: Seq<char>)
+    ensures block_lines_text(ind, Seq::<Seq<char>>::empty()) =~= Seq::<char>::empty(),
+{}
+
+/// the shapes `lit_lines` takes, spelled the way the emitter builds them
+proof fn lemma_lit_lines_shape(v: Seq<char>)
+    ensures ({ let t = trailing_lf(v); let c = strip_lf(v);
+        &&& (c.len() == 0 && t == 0 ==> lit_lines(v) =~= Seq::<Seq<char>>::empty())
+        &&& (c.len() == 0 && t == 1 ==> lit_lines(v) =~= Seq::<Seq<char>>::empty().push(Seq::<char>::empty()))
+        &&& (c.len() == 0 && t >= 2 ==> lit_lines(v) =~= Seq::<Seq<char>>::empty().push(Seq::<char>::empty()) + empties((t - 1) as nat))
+        &&& (c.len() > 0 && t < 2 ==> lit_lines(v) =~= split_lines(c))
+        &&& (c.len() > 0 && t >= 2 ==> lit_lines(v) =~= split_lines(c) + empties((t - 1) as nat)) }),
+{
+    let t = trailing_lf(v); let c = strip_lf(v);
+    let one = Seq::<Seq<char>>::empty().push(Seq::<char>::empty());
+    assert(empties(0) =~= Seq::<Seq<char>>::empty());
+    assert(empties(1) =~= one);
+    if t >= 2 { assert(one + empties((t - 1) as nat) =~= empties(t)); }
+    assert(split_lines(c) + empties(0) =~= split_lines(c));
+}
+
+proof fn lemma_empties_push(a: Seq<Seq<char>>, k: nat)
+    ensures a + empties(k + 1) =~= (a + empties(k)).push(Seq::<char>::empty()), a + empties(0) =~= a,
+{}
